@@ -44,6 +44,11 @@ CHECKS = {
             "Every generated well-formed btor2 file is read by patronus and by an independent text-level interpreter (own tokenizer, sort table, BTOR2 typing rules, big-integer semantics); inputs/states/sorts are matched positionally and every output/bad/constraint/init/next is evaluated on both sides; single-token ill-sorted variants must be rejected. Held on the files executed.",
             "R5 (BTOR2 paper) is the arbiter of well-formed / ill-sorted; values compared on 6 valuations per file.",
             "DESIGN.md §4 C08"),
+    "C18": ("exploration",
+            "runtime robustness monitor: parse_str on mutated btor2 texts under catch_unwind / shard journal, deep type check of accepted systems",
+            "Hundreds of thousands of mutated btor2 texts (generated files and corpus files) are fed to parse_str; panics and aborts are violations (except on documented unsupported operators); accepted systems are type-checked node by node by an independent checker, init/next/root types and symbol declarations verified. Held on the mutants executed.",
+            "Mutation-based, not exhaustive; widths capped at 65536 to keep memory exhaustion apart from crashes.",
+            "DESIGN.md §4 C18"),
 }
 
 NOT_YET = {}
